@@ -64,11 +64,13 @@ Scar(q, kind) == scar' = IF Raised(last') THEN [scar EXCEPT ![q] = last'] ELSE s
 
 Qs == 1..NQ
 NoCal == 0
+\* the value of the {} that calibrate() returns under a recipe that needs no calibration: a caller-owned object like any other result
+Empty == <<"empty">>
 \* the value a calibration result currently has (as any reader sees it)
 Seen(k) == IF k = NoCal THEN << <<"nocal">>, {} >> ELSE <<cals[k].val, cals[k].writes>>
 \* operators for which a calibration value term holds statistics (a resumed result keeps those of its base)
 RECURSIVE Covered(_)
-Covered(v) == IF v = <<"nocal">> THEN {}
+Covered(v) == IF v = <<"nocal">> \/ v = Empty THEN {}
               ELSE (IF v[3] \in EmptyData THEN {} ELSE StatsOf[<<v[1], v[2]>>]) \cup Covered(v[4][1])
 Pristine(k) == IF k = NoCal THEN << <<"nocal">>, {} >> ELSE <<snap[k], {}>>
 
@@ -89,8 +91,10 @@ LoadPolicy(q, p) ==
 Calibrate(q, d, prev) ==
   /\ prev \in 0..Len(cals)
   /\ IF rec[q] = NoRecipe \/ ~NeedsCal[rec[q]]
-     THEN /\ last' = "empty"                      \* returns {} without running
-          /\ UNCHANGED <<cals, snap>>
+     THEN /\ last' = "empty"                      \* returns a fresh {} without running; the caller keeps it while there is room
+          /\ IF Len(cals) < MaxCals
+             THEN cals' = Append(cals, [val |-> Empty, writes |-> {}]) /\ snap' = Append(snap, Empty)
+             ELSE UNCHANGED <<cals, snap>>
      ELSE /\ Len(cals) < MaxCals
           /\ LET v == <<rec[q], policy, d, Seen(prev)>> IN      \* resumes from the value the previous result has NOW
              /\ cals' = Append(cals, [val |-> v, writes |-> {}])
@@ -102,7 +106,7 @@ Calibrate(q, d, prev) ==
 Quantize(q, k) ==
   /\ k \in 0..Len(cals)
   /\ IF rec[q] = NoRecipe THEN last' = "raise:norecipe" /\ UNCHANGED <<quantized, cals, outs, ress>>
-     ELSE IF NeedsCal[rec[q]] /\ k = NoCal THEN last' = "raise:nocal" /\ UNCHANGED <<quantized, cals, outs, ress>>
+     ELSE IF NeedsCal[rec[q]] /\ k = NoCal THEN last' = "raise:nocal" /\ UNCHANGED <<quantized, cals, outs, ress>>   \* (an EMPTY result is not "no result": its statistics are missing, next clause)
      ELSE IF NeedsCal[rec[q]] /\ ~(StatsOf[<<rec[q], policy>>] \subseteq Covered(cals[k].val))
           THEN last' = "raise:missing" /\ UNCHANGED <<quantized, cals, outs, ress>>     \* statistics of another recipe: rejected
      ELSE /\ outs' = outs \cup {<<rec[q], policy, Seen(k), Pristine(k)>>}
